@@ -1,6 +1,15 @@
 #!/bin/bash
-# offline setup: build the explorer (warms the Go build cache)
+# offline setup: build the explorer and pre-compile the go1.26.8 test drivers (warms the Go build cache)
 set -eu
 cd "$(dirname "$0")"
+source ./env.sh
 ./build.sh
+mkdir -p scratch
+cp /repo/go.sum e5/go.sum
+(cd e5 && $GO test -count=1 -run '^$' ./timermc/ ./codecmc/ >/dev/null)
+ov=scratch/setup_overlay.json
+echo '{"Replace": {"/repo/internal/simulation/zz_verif_mc_test.go": "'$PWD'/e5/simmc/sim_mc_test.go.src"}}' > $ov
+(cd /repo && $GO test -overlay=$OLDPWD/$ov -vet=off -count=1 -run '^$' ./internal/simulation/ >/dev/null)
+(cd /repo && $GO test -race -overlay=$OLDPWD/$ov -vet=off -count=1 -run '^$' ./internal/simulation/ >/dev/null)
+rm -f $ov
 echo setup ok
